@@ -251,8 +251,6 @@ def main():
             except Exception as e:
                 fail = None
                 notes.append(f"oracle raised {type(e).__name__}: {e} on case {i}")
-        for k in c.tags:       # counted after the oracle: oracles tag what they actually checked
-            dist[k] = dist.get(k, 0) + 1
         if fail:
             oracle_fail.append((i, c, fail))
             continue
@@ -272,6 +270,9 @@ def main():
     # impl-vs-impl group oracles
     for grp_fail in props.group_oracles(pid, cases):
         oracle_fail.append(grp_fail)
+    for c in cases:            # counted after all oracles: they tag what they actually checked or skipped
+        for k in c.tags:
+            dist[k] = dist.get(k, 0) + 1
     special_broken = []
     if special:
         for (what, rp, found) in special["fails"]:
